@@ -1,6 +1,7 @@
 //go:build go1.25
 
-// C33, part 2 (engine E1q): overlapping replications through the REAL origin.
+// C33, part 2 (engine E1q): overlapping replications through the REAL origin
+// (part 3, faulty.go, adds same-task replicas, failing uploads and retries).
 //
 // Several tag-replication tasks (different remote clusters and/or different
 // tags) are executed concurrently by real tagreplication.Executor.Exec calls
@@ -61,6 +62,7 @@ type ctask struct {
 	tag    string
 	remote string // "A" | "B"
 	deps   []int
+	rep    int // part 3: 1, 2, .. = the same task executed by several build-index replicas (0: a single executor)
 }
 
 func (t ctask) name() string {
@@ -68,7 +70,11 @@ func (t ctask) name() string {
 	for _, d := range t.deps {
 		ds = append(ds, fmt.Sprintf("b%d", d+1))
 	}
-	return fmt.Sprintf("%s->%s[%s]", t.tag, t.remote, strings.Join(ds, ","))
+	n := fmt.Sprintf("%s->%s[%s]", t.tag, t.remote, strings.Join(ds, ","))
+	if t.rep > 0 {
+		n += fmt.Sprintf("#%d", t.rep)
+	}
+	return n
 }
 
 type cscenario struct {
@@ -76,19 +82,26 @@ type cscenario struct {
 	tasks []ctask
 }
 
+// taskName: the task as the remote build-index sees it (replicas of one task
+// are indistinguishable there).
+func (t ctask) taskName() string {
+	t.rep = 0
+	return t.name()
+}
+
 func (sc cscenario) name() string { return "concurrent: " + sc.label }
 
 func cscenarios(thorough bool) []cscenario {
 	scs := []cscenario{
-		{"two remotes, one shared blob", []ctask{{"x", "A", []int{0}}, {"x", "B", []int{0}}}},
-		{"two remotes, two shared blobs", []ctask{{"x", "A", []int{0, 1}}, {"x", "B", []int{0, 1}}}},
-		{"one remote, different blobs", []ctask{{"x", "A", []int{0}}, {"y", "A", []int{1}}}},
-		{"one remote, same blob", []ctask{{"x", "A", []int{0}}, {"y", "A", []int{0}}}},
+		{"two remotes, one shared blob", []ctask{{"x", "A", []int{0}, 0}, {"x", "B", []int{0}, 0}}},
+		{"two remotes, two shared blobs", []ctask{{"x", "A", []int{0, 1}, 0}, {"x", "B", []int{0, 1}, 0}}},
+		{"one remote, different blobs", []ctask{{"x", "A", []int{0}, 0}, {"y", "A", []int{1}, 0}}},
+		{"one remote, same blob", []ctask{{"x", "A", []int{0}, 0}, {"y", "A", []int{0}, 0}}},
 	}
 	if thorough {
 		scs = append(scs,
-			cscenario{"two remotes, blobs in opposite order", []ctask{{"x", "A", []int{0, 1}}, {"y", "B", []int{1, 0}}}},
-			cscenario{"three tasks", []ctask{{"x", "A", []int{0}}, {"x", "B", []int{0}}, {"y", "A", []int{1}}}},
+			cscenario{"two remotes, blobs in opposite order", []ctask{{"x", "A", []int{0, 1}, 0}, {"y", "B", []int{1, 0}, 0}}},
+			cscenario{"three tasks", []ctask{{"x", "A", []int{0}, 0}, {"x", "B", []int{0}, 0}, {"y", "A", []int{1}, 0}}},
 		)
 	}
 	return scs
@@ -127,6 +140,15 @@ type cworld struct {
 	overlap    bool                   // two uploads of one blob (to different remotes) were in flight together
 	overlapAny bool                   // any two uploads were in flight together
 	requests   int                    // replicate-to-remote requests that reached the origin handler
+
+	// part 3 (faulty.go): failing uploads
+	faults         int             // remaining budget of upload failures the environment may still choose
+	nfail          int             // failures chosen so far
+	nlost          int             // of which: the bytes arrived but the response was lost
+	confirmed      map[string]bool // "R|bN": an UploadBlob of blob N to remote origin cluster R returned nil to the local origin
+	reqInflight    map[string]int  // "remote|namespace|bN" -> replicate-to-remote requests currently inside the origin handler
+	sameKeyOverlap bool            // two requests for the same (remote, namespace, blob) were inside the handler together
+	failInOverlap  bool            // an upload failed while another request for the same (remote, namespace, blob) was inside the handler
 	vio        string
 	stray      []string
 	dummy      *world // receives the "unexpected call" counts of the embedded sequential fakes
@@ -169,12 +191,20 @@ func (o handlerOrigin) Addr() string { return "origin1:80" }
 
 func (o handlerOrigin) ReplicateToRemote(namespace string, d core.Digest, remoteDNS string) error {
 	target := fmt.Sprintf("/namespace/%s/blobs/%s/remote/%s", url.PathEscape(namespace), d, remoteDNS)
+	key := remoteDNS + "|" + namespace + "|" + blobName(d)
 	o.cw.mu.Lock()
 	o.cw.requests++
+	o.cw.reqInflight[key]++
+	if o.cw.reqInflight[key] > 1 {
+		o.cw.sameKeyOverlap = true
+	}
 	o.cw.mu.Unlock()
 	req := httptest.NewRequest("POST", target, nil)
 	rec := httptest.NewRecorder()
 	o.cw.h.ServeHTTP(rec, req)
+	o.cw.mu.Lock()
+	o.cw.reqInflight[key]--
+	o.cw.mu.Unlock()
 	if rec.Code == http.StatusOK {
 		return nil
 	}
@@ -223,6 +253,23 @@ func (c remoteCluster) UploadBlob(ctx context.Context, namespace string, d core.
 	w.inflight[b]++
 	w.mu.Unlock()
 	w.c.Park(fmt.Sprintf("upload %s to origin %s", b, c.r))
+	// part 3: the outcome of the upload is an environment answer (while the
+	// failure budget lasts); alternative 0 = the upload succeeds
+	outcome := 0
+	w.mu.Lock()
+	budget := w.faults
+	w.mu.Unlock()
+	if budget > 0 {
+		outcome = w.c.Choose(len(uploadAnswers), fmt.Sprintf("outcome of upload %s to origin %s", b, c.r))
+	}
+	if outcome == 1 {
+		// the remote origin cluster is unavailable: nothing arrives
+		w.mu.Lock()
+		defer w.mu.Unlock()
+		w.inflight[b]--
+		w.uploadFailed(originAddr(c.r) + "|" + namespace + "|" + b)
+		return httputil.StatusError{Method: "POST", URL: "http://" + originAddr(c.r) + "/namespace/x/blobs/" + d.Hex() + "/uploads", Status: http.StatusServiceUnavailable}
+	}
 	data, err := io.ReadAll(blob)
 	w.mu.Lock()
 	defer w.mu.Unlock()
@@ -241,7 +288,26 @@ func (c remoteCluster) UploadBlob(ctx context.Context, namespace string, d core.
 		return fmt.Errorf("c33: bad upload")
 	}
 	w.remoteBlob[c.r+"|"+b] = true
+	if outcome == 2 {
+		// the bytes arrived but the local origin never learns it: the blob is in
+		// the remote cluster, its presence is NOT confirmed
+		w.uploadFailed(originAddr(c.r) + "|" + namespace + "|" + b)
+		w.nlost++
+		return httputil.NetworkError{}
+	}
+	w.confirmed[c.r+"|"+b] = true
 	return nil
+}
+
+var uploadAnswers = []string{"ok", "503, nothing stored", "stored but response lost"}
+
+// uploadFailed: w.mu held.
+func (w *cworld) uploadFailed(key string) {
+	w.faults--
+	w.nfail++
+	if w.reqInflight[key] > 1 {
+		w.failInOverlap = true
+	}
 }
 
 func (c remoteCluster) CheckReadiness() error { return c.w.strayCall("remote CheckReadiness") }
@@ -302,15 +368,20 @@ func (c remoteIndexClient) PutAndReplicate(tag string, d core.Digest) error {
 	}
 	// the oracle, at the moment the remote build-index is asked
 	w.mu.Lock()
-	var missing []string
+	var missing, unconfirmed []string
 	for _, dep := range t.deps {
-		if b := fmt.Sprintf("b%d", dep+1); !w.remoteBlob[c.r+"|"+b] {
+		b := fmt.Sprintf("b%d", dep+1)
+		if !w.remoteBlob[c.r+"|"+b] {
 			missing = append(missing, b)
+		} else if !w.confirmed[c.r+"|"+b] {
+			unconfirmed = append(unconfirmed, b)
 		}
 	}
 	w.mu.Unlock()
 	if len(missing) > 0 {
-		w.violate(fmt.Sprintf("concurrent replications: PutAndReplicate was sent to a remote build-index although its origin cluster never received a dependency blob\ntask %s: remote origin %s has not received %v", t.name(), c.r, missing))
+		w.violate(fmt.Sprintf("concurrent replications: PutAndReplicate was sent to a remote build-index although its origin cluster never received a dependency blob\ntask %s: remote origin %s has not received %v", t.taskName(), c.r, missing))
+	} else if len(unconfirmed) > 0 {
+		w.violate(fmt.Sprintf("concurrent replications: PutAndReplicate was sent to a remote build-index although no upload of a dependency blob to its origin cluster was ever confirmed\ntask %s: no upload of %v to remote origin %s has returned success", t.taskName(), unconfirmed, c.r))
 	}
 	w.c.Park(fmt.Sprintf("put %s on build-index %s", tag, c.r))
 	w.mu.Lock()
@@ -337,7 +408,7 @@ func newCWorld(c *e1q.Ctl, sc cscenario) (*cworld, error) {
 	if err != nil {
 		return nil, err
 	}
-	w := &cworld{c: c, sc: sc, dir: dir, remoteBlob: map[string]bool{}, remoteTag: map[string]core.Digest{}, inflight: map[string]int{}, dummy: &world{}}
+	w := &cworld{c: c, sc: sc, dir: dir, remoteBlob: map[string]bool{}, remoteTag: map[string]core.Digest{}, inflight: map[string]int{}, confirmed: map[string]bool{}, reqInflight: map[string]int{}, dummy: &world{}}
 	cas, err := store.NewCAStore(store.CAStoreConfig{
 		UploadDir: filepath.Join(dir, "upload"), CacheDir: filepath.Join(dir, "cache"), Capacity: 64,
 		UploadCleanup: store.CleanupConfig{Disabled: true},
